@@ -203,6 +203,136 @@ fn modname(req: &Value) -> Value {
     json!({"modname": out})
 }
 
+
+/// C06: for every identifier token (IDENT / U_IDENT) of every file of the workspace: goto_definition, references, highlight_related.
+/// {"files":..,"roots":..}  ->  {"inverse":[{"file":i,"start":s,"end":e,"text":..,"goto":[[f,s,e]..]|null,"refs":[[f,s,e]..]|null,"hl":[[s,e]..]}..]}
+fn inverse(req: &Value) -> Value {
+    let host = build(req);
+    let a = host.snapshot();
+    let mut out = Vec::new();
+    for (i, f) in req["files"].as_array().unwrap().iter().enumerate() {
+        let text = f["text"].as_str().unwrap();
+        for tok in syntax::lexer::GleamLexer::new(text) {
+            if tok.kind != syntax::SyntaxKind::IDENT && tok.kind != syntax::SyntaxKind::U_IDENT {
+                continue;
+            }
+            let fpos = FilePos::new(FileId(i as u32), tok.range.start());
+            let goto = match panic::catch_unwind(panic::AssertUnwindSafe(|| a.goto_definition(fpos))) {
+                Ok(Ok(Some(ide::GotoDefinitionResult::Targets(ts)))) => Value::Array(
+                    ts.iter().map(|t| json!([t.file_id.0, u32::from(t.focus_range.start()), u32::from(t.focus_range.end())])).collect(),
+                ),
+                Ok(Ok(_)) => Value::Null,
+                Ok(Err(_)) => json!("<cancelled>"),
+                Err(_) => json!("<panic>"),
+            };
+            let refs = match panic::catch_unwind(panic::AssertUnwindSafe(|| a.references(fpos))) {
+                Ok(Ok(Some(rs))) => Value::Array(rs.iter().map(|r| json!([r.file_id.0, u32::from(r.range.start()), u32::from(r.range.end())])).collect()),
+                Ok(Ok(None)) => Value::Null,
+                Ok(Err(_)) => json!("<cancelled>"),
+                Err(_) => json!("<panic>"),
+            };
+            let hl = match panic::catch_unwind(panic::AssertUnwindSafe(|| a.highlight_related(fpos))) {
+                Ok(Ok(hs)) => Value::Array(hs.iter().map(|h| json!([u32::from(h.range.start()), u32::from(h.range.end())])).collect()),
+                Ok(Err(_)) => json!("<cancelled>"),
+                Err(_) => json!("<panic>"),
+            };
+            out.push(json!({"file": i, "start": u32::from(tok.range.start()), "end": u32::from(tok.range.end()), "text": tok.text, "goto": goto, "refs": refs, "hl": hl}));
+        }
+    }
+    json!({"inverse": out})
+}
+
+fn apply_edits(files: &mut Vec<String>, we: &ide::WorkspaceEdit) -> Result<(), String> {
+    for (f, es) in we.content_edits.iter() {
+        let mut es: Vec<_> = es.iter().collect();
+        es.sort_by(|a, b| b.delete.start().cmp(&a.delete.start()));
+        let mut last: Option<u32> = None;
+        for e in es {
+            if let Some(l) = last {
+                if u32::from(e.delete.end()) > l {
+                    return Err(format!("edits overlap in file {}", f.0));
+                }
+            }
+            last = Some(u32::from(e.delete.start()));
+            let t = files.get_mut(f.0 as usize).ok_or_else(|| format!("edit for unknown file {}", f.0))?;
+            let (s, en) = (usize::from(e.delete.start()), usize::from(e.delete.end()));
+            if en > t.len() || !t.is_char_boundary(s) || !t.is_char_boundary(en) {
+                return Err(format!("edit {}..{} outside file {} / off a char boundary", s, en, f.0));
+            }
+            e.apply(t);
+        }
+    }
+    Ok(())
+}
+
+fn with_texts(req: &Value, texts: &[String]) -> Value {
+    let mut r = req.clone();
+    for (i, t) in texts.iter().enumerate() {
+        r["files"][i]["text"] = json!(t);
+    }
+    r
+}
+
+fn ndiag(req: &Value) -> Vec<usize> {
+    let host = build(req);
+    let a = host.snapshot();
+    (0..req["files"].as_array().unwrap().len()).map(|i| a.diagnostics(FileId(i as u32)).map(|d| d.len()).unwrap_or(usize::MAX)).collect()
+}
+
+/// C07: rename at (file, offset) to new_name, apply the edits, rename back at the same token (shifted), report everything.
+/// -> {"rename": {"ok":..,"edits":[[f,s,e,text]..]|"err":..}, "texts":[..after..], "diag_before":[..], "diag_after":[..], "back_texts":[..]|null, "back_err":..}
+fn renameall(req: &Value) -> Value {
+    let host = build(req);
+    let a = host.snapshot();
+    let file = req["file"].as_u64().unwrap() as u32;
+    let off = req["offset"].as_u64().unwrap() as u32;
+    let old_name = req["old_name"].as_str().unwrap();
+    let new_name = req["new_name"].as_str().unwrap();
+    let fpos = FilePos::new(FileId(file), off.into());
+    let mut texts: Vec<String> = req["files"].as_array().unwrap().iter().map(|f| f["text"].as_str().unwrap().to_string()).collect();
+    let we = match a.rename(fpos, new_name) {
+        Ok(Ok(we)) => we,
+        Ok(Err(e)) => return json!({"rename": {"ok": false, "err": e}}),
+        Err(_) => return json!({"rename": {"ok": false, "err": "cancelled"}}),
+    };
+    let mut edits = Vec::new();
+    for (f, es) in we.content_edits.iter() {
+        for e in es {
+            edits.push(json!([f.0, u32::from(e.delete.start()), u32::from(e.delete.end()), e.insert.as_str()]));
+        }
+    }
+    let diag_before = ndiag(req);
+    if let Err(e) = apply_edits(&mut texts, &we) {
+        return json!({"rename": {"ok": true, "edits": edits}, "apply_err": e});
+    }
+    let req2 = with_texts(req, &texts);
+    let diag_after = ndiag(&req2);
+    // where is the token we renamed from, in the new text?  shift by the edits before it in the same file
+    let mut shift: i64 = 0;
+    for (f, es) in we.content_edits.iter() {
+        if f.0 == file {
+            for e in es {
+                if u32::from(e.delete.start()) < off {
+                    shift += new_name.len() as i64 - (u32::from(e.delete.end()) - u32::from(e.delete.start())) as i64;
+                }
+            }
+        }
+    }
+    let off2 = (off as i64 + shift) as u32;
+    let host2 = build(&req2);
+    let a2 = host2.snapshot();
+    let mut back_texts = texts.clone();
+    let (back, back_err) = match a2.rename(FilePos::new(FileId(file), off2.into()), old_name) {
+        Ok(Ok(we2)) => match apply_edits(&mut back_texts, &we2) {
+            Ok(()) => (json!(back_texts), Value::Null),
+            Err(e) => (Value::Null, json!(e)),
+        },
+        Ok(Err(e)) => (Value::Null, json!(e)),
+        Err(_) => (Value::Null, json!("cancelled")),
+    };
+    json!({"rename": {"ok": true, "edits": edits}, "texts": texts, "diag_before": diag_before, "diag_after": diag_after, "back_texts": back, "back_err": back_err, "offset_after": off2})
+}
+
 fn main() {
     panic::set_hook(Box::new(|_| {}));
     let stdin = std::io::stdin();
@@ -226,6 +356,8 @@ fn main() {
             "highlight" => highlight(&req),
             "semhl" => semhl(&req),
             "modname" => modname(&req),
+            "inverse" => inverse(&req),
+            "renameall" => renameall(&req),
             _ => json!({"error": "unknown command"}),
         });
         let out = match res {
